@@ -104,7 +104,7 @@ Qed.
 (* (h1) from a bound on the line lengths *)
 Lemma short_lines_give_h1 H A c :
   0 < H -> 0 < A ->
-  (forall o, 0 <= o <= lenZ c -> line_len c o <= (A - 1) * H) ->
+  (forall o, 0 <= o <= lenZ c -> line_len c o <= A * H - 1) ->
   all_within_budget H A c.
 Proof.
   intros HH HA Hl o Ho. apply short_line_within_budget; auto.
